@@ -22,6 +22,16 @@ type irqPlan struct {
 	IOAt  []uint64 // port access counts at which an NMI is raised
 	fired map[*z80.CPU]int
 
+	// Reuse: the device owns ONE request object per kind, built once through the public
+	// constructors, and assigns that same object at every firing (a vblank source does
+	// exactly that).  Between firings another device builds and drops a request.  The
+	// library never owns these objects: they must keep their Type and Data.
+	Reuse    bool
+	reqNMI   *z80.Interrupt
+	reqINT   *z80.Interrupt
+	origData []uint8
+	Corrupt  string // set when a host-owned request object was found modified
+
 	OnHaltFetch bool // raise a request from the read callback that delivers the final HALT opcode
 	HaltAddr    uint16
 	HaltKind    int // 0 NMI, 1 maskable (data per mode in HaltData)
@@ -60,6 +70,10 @@ func (pl *irqPlan) install(cpu *z80.CPU, mem *mon.Mem, io *mon.IO) {
 		for i, at := range pl.At {
 			if m.Count == at {
 				pl.fired[cpu]++
+				if pl.Reuse {
+					pl.fireReused(cpu, i)
+					continue
+				}
 				if pl.Kind[i] == 0 {
 					cpu.Interrupt = z80.NMIInterrupt()
 				} else {
@@ -75,6 +89,58 @@ func (pl *irqPlan) install(cpu *z80.CPU, mem *mon.Mem, io *mon.IO) {
 				cpu.Interrupt = z80.NMIInterrupt()
 			}
 		}
+	}
+}
+
+// makeReq builds a request through the public constructors.
+func makeReq(kind int, data []uint8) *z80.Interrupt {
+	switch {
+	case kind == 0:
+		return z80.NMIInterrupt()
+	case len(data) == 0:
+		return z80.IM1Interrupt()
+	case len(data) == 1 && data[0]&1 == 0:
+		return z80.IM2Interrupt(data[0])
+	default:
+		return z80.IM0Interrupt(data[0], data[1:]...)
+	}
+}
+
+func (pl *irqPlan) checkOwned() {
+	if pl.reqNMI != nil && (pl.reqNMI.Type != z80.NMIType) {
+		pl.Corrupt = fmt.Sprintf("the host's NMI request object now has Type=%d Data=% X", pl.reqNMI.Type, pl.reqNMI.Data)
+	}
+	if pl.reqINT != nil && (pl.reqINT.Type != z80.IMType || !bytesEq(pl.reqINT.Data, pl.origData)) {
+		pl.Corrupt = fmt.Sprintf("the host's maskable request object (built with data % X) now has Type=%d Data=% X", pl.origData, pl.reqINT.Type, pl.reqINT.Data)
+	}
+}
+
+// fireReused assigns the device's one request object of the wanted kind (all
+// maskable firings of a plan use the data of the first maskable entry).
+func (pl *irqPlan) fireReused(cpu *z80.CPU, i int) {
+	pl.checkOwned()
+	if pl.Kind[i] == 0 {
+		if pl.reqNMI == nil {
+			pl.reqNMI = z80.NMIInterrupt()
+		}
+		cpu.Interrupt = pl.reqNMI
+	} else {
+		if pl.reqINT == nil {
+			for j := range pl.Kind {
+				if pl.Kind[j] == 1 {
+					pl.origData = append([]uint8(nil), pl.Data[j]...)
+					break
+				}
+			}
+			pl.reqINT = makeReq(1, pl.origData)
+		}
+		cpu.Interrupt = pl.reqINT
+	}
+	// another device builds a request of another shape and drops it
+	if pl.Kind[i] == 0 {
+		_ = z80.IM0Interrupt(0xcd, 0x34, 0x12)
+	} else {
+		_ = z80.NMIInterrupt()
 	}
 }
 
